@@ -40,9 +40,18 @@ type FuncContract struct {
 	Pure     bool // result is a deterministic function of leaf args
 	Trusted  bool // contract assumed, body not verified
 	Uses     []string // lemmas assumed (proved separately)
+	Sets     []*GhostSet // ghost updates performed at return (definitional)
+	AtCall   map[string][]*Clause // callee short name -> assertions that must hold at each of its call sites in this function
 	Asserts  []*Clause // "assert before call <callee>" clauses etc (unused)
 	File     string
 	Line     int
+}
+
+// GhostSet: `sets g = expr when cond` — the ghost variable g is assigned at return of the function.
+type GhostSet struct {
+	Ghost string
+	Expr  *Clause
+	Cond  *Clause
 }
 
 type SpecFunc struct {
@@ -290,11 +299,19 @@ func (cs *Contracts) LoadContractText(text, path, pkgPath string) error {
 		case "ghost":
 			if len(fields) >= 4 && fields[1] == "field" {
 				// ghost field Type.name type
-				tf := strings.SplitN(fields[2], ".", 2)
-				if len(tf) != 2 {
-					return fmt.Errorf("%s:%d: ghost field Type.name type", base, it.n)
+				tf := strings.Split(fields[2], ".")
+				gp := pkgPath
+				if len(tf) == 3 {
+					// alias.Type.name
+					if m := cs.Imports[pkgPath]; m != nil && m[tf[0]] != "" {
+						gp = m[tf[0]]
+						tf = tf[1:]
+					}
 				}
-				k := pkgPath + "." + tf[0]
+				if len(tf) != 2 {
+					return fmt.Errorf("%s:%d: ghost field [alias.]Type.name type", base, it.n)
+				}
+				k := gp + "." + tf[0]
 				if cs.GhostFields[k] == nil {
 					cs.GhostFields[k] = map[string]string{}
 				}
@@ -439,6 +456,41 @@ func (cs *Contracts) LoadContractText(text, path, pkgPath string) error {
 			for _, k := range fields[1:] {
 				cur.Checks[k] = true
 			}
+		case "atcall":
+			// atcall <callee> label: expr
+			if cur == nil || len(fields) < 3 {
+				return fmt.Errorf("%s:%d: atcall <callee> [label:] expr", base, it.n)
+			}
+			idx := strings.Index(s, fields[1])
+			cl, err := parseClause(strings.TrimSpace(s[idx+len(fields[1]):]), base, it.n, true)
+			if err != nil {
+				return err
+			}
+			if cl.Label == "" {
+				cl.Label = "a" + strconv.Itoa(len(cur.AtCall[fields[1]])+1)
+			}
+			if cur.AtCall == nil {
+				cur.AtCall = map[string][]*Clause{}
+			}
+			cur.AtCall[fields[1]] = append(cur.AtCall[fields[1]], cl)
+		case "sets":
+			// sets g = expr when cond
+			if cur == nil {
+				return fmt.Errorf("%s:%d: sets outside func", base, it.n)
+			}
+			m := regexp.MustCompile(`^sets\s+([A-Za-z_][A-Za-z0-9_]*)\s*=\s*(.*?)\s+when\s+(.*)$`).FindStringSubmatch(s)
+			if m == nil {
+				return fmt.Errorf("%s:%d: sets g = expr when cond", base, it.n)
+			}
+			ex, err := parseClause(m[2], base, it.n, false)
+			if err != nil {
+				return err
+			}
+			cd, err := parseClause(m[3], base, it.n, false)
+			if err != nil {
+				return err
+			}
+			cur.Sets = append(cur.Sets, &GhostSet{Ghost: m[1], Expr: ex, Cond: cd})
 		case "uses":
 			if cur != nil {
 				cur.Uses = append(cur.Uses, fields[1:]...)
